@@ -128,6 +128,16 @@ func init() {
 			e.Yield()
 			return nil
 		},
+		// verif_GoGate(f) is `go f()` whose first activation order is recorded on the tape, so that
+		// the native replay can start the goroutines in the engine's order (see api.go.txt)
+		"verif_GoGate": func(e *Engine, fr *frame, a []Value) Value {
+			fn := a[0]
+			t := e.Spawn("gate", func(t *Thread) { e.call(nil, t, fn, nil, 0) })
+			t.gate = e.ngates
+			e.ngates++
+			e.Yield()
+			return nil
+		},
 		"verif_Quiesce":  func(e *Engine, fr *frame, a []Value) Value { return e.mkInt(int64(e.Quiesce())) },
 		"verif_AnyOrder": func(e *Engine, fr *frame, a []Value) Value { e.anyOrder = a[0].(*Term).IsTrue(); return nil },
 		"verif_Ite": func(e *Engine, fr *frame, a []Value) Value {
